@@ -31,6 +31,7 @@ struct HostileWorld : World {
 		p.set("s1", r.range(0, 300)); p.set("s2", r.range(0, 300)); p.set("s3", r.range(0, 300));
 		p.set("mis", r.range(0, 15));
 		p.set("grant", r.chance(1, 2) ? 8 : r.range(1, 40));
+		p.set("insist", r.chance(1, 3) ? 1 : 0);  // after an error the decoder is called again as it is (up to 3 times) before the harness starts over behind the frame
 		p.set("layer", r.chance(1, 3) ? 1 : 0);   // 1: the same bytes through a real decode queue (mpt_queue_recv/peek/shift)
 		static const int caps[] = {4, 8, 16, 40, 64, 100, 300};
 		p.set("qcap", r.pick(caps)); p.set("qoff", r.range(0, 300));
@@ -210,6 +211,7 @@ struct HostileWorld : World {
 			frames.push_back(f); b = i + 1;
 		}
 		if (p.get("layer")) { exec_queue(p, framing, stream, frames_of(frames), log, st); return; }
+		const bool insist = p.get("insist") != 0;
 		decode_state ds;
 		Bytes vis;               // what the decoder sees: arrived bytes plus granted slack, decoded in place
 		size_t fed = 0;          // stream bytes handed over so far
@@ -300,6 +302,23 @@ struct HostileWorld : World {
 						fail("wellformed-rejected", "%s: well-formed frame %s rejected with error %d", ref::framing_name(framing), sim::hex(stream.data() + f.beg, f.end - f.beg, 24).c_str(), rc);
 					st.hit("frames:malformed_rejected");
 				} else st.hit("frames:error_on_incomplete");
+				// a caller that simply calls again: every call ends, stays inside the buffers, and whatever it delivers is the message of a
+				// well-formed frame that lies behind the rejected one - never an earlier message again, never bytes no frame holds
+				if (insist && frames_done < frames.size() && frames[frames_done].end <= fed) {
+					for (int k = 0; k < 3; ++k) {
+						st.hit("op:DECODE_AFTER_ERROR");
+						int r2 = call(false);
+						if (r2 <= 0) { if (r2 == 0 || r2 == E_MissingBuffer) break; continue; }
+						if (ds.data.msg < 0 || ds.data.pos > vis.size() || (size_t) ds.data.msg > vis.size() - ds.data.pos)
+							fail("invented", "%s decoder, called again after error %d, reports a message (%d) outside the data: pos=%zu msg=%zd, %zu bytes visible", ref::framing_name(framing), rc, r2, ds.data.pos, ds.data.msg, vis.size());
+						Bytes got(vis.begin() + ds.data.pos, vis.begin() + ds.data.pos + ds.data.msg);
+						bool known = false;
+						for (size_t j = frames_done + 1; j < frames.size() && !known; ++j) if (frames[j].end <= fed && frames[j].verdict != ref::MALFORMED && (frames[j].verdict != ref::WELL || frames[j].msg == got)) known = true;
+						if (!known) fail("invented", "%s decoder, called again after error %d on frame %zu, delivered %zu bytes (%s) that no frame behind it holds", ref::framing_name(framing), rc, frames_done, got.size(), sim::hex(got, 16).c_str());
+						st.hit("probe:delivery_after_error_without_reset");
+						break;
+					}
+				}
 				// resynchronise (policy of the harness, not of the statement): fresh state, continue behind the delimiter
 				drop_to = frames_done < frames.size() ? frames[frames_done].end : stream.size();
 				++frames_done;
